@@ -2,7 +2,7 @@
    the three spellings) and index steps [digits] returns exactly the value reached by following the names and
    indexes through the nested objects and arrays (with that location in accessor mode), and nothing when a
    name or index is missing on the way. *)
-From JP Require Import Peg Grammar Slice Text Tree Actions Json Eval WF Spec EvalInv1 EvalInv4 EvalTop EndToEnd Codec KeyDefs KeyParse IdxParse WildParse ChainParse.
+From JP Require Import Peg Grammar Slice Text Tree Actions Json Eval WF Spec SortFacts EvalInv1 EvalInv4 EvalTop EndToEnd Codec KeyDefs KeyParse IdxParse WildParse RecParse ChainParse.
 From Coq Require Import Lia.
 Open Scope list_scope.
 
@@ -30,8 +30,15 @@ Definition nav1 (s : kstep) (lv : list pstep * value) : list (list pstep * value
                end
   | _ => match nav (snd lv) s with Some x => [(fst lv ++ [step_loc s], x)] | None => [] end
   end.
-Fixpoint nav_all (steps : list kstep) (lv : list pstep * value) : list (list pstep * value) :=
-  match steps with [] => [lv] | s :: r => flat_map (nav_all r) (nav1 s lv) end.
+(* `..step`: the step applied to every container below (and including) the value, in pre-order *)
+Definition cu_loc (cu : cursor) : list pstep := match fst cu with Some l => l | None => [] end.
+Definition nav1r (x : rstep) (lv : list pstep * value) : list (list pstep * value) :=
+  match x with
+  | RPlain s => nav1 s lv
+  | RRec s => flat_map (fun cu => nav1 s (cu_loc cu, snd cu)) (containers (Some (fst lv)) (snd lv))
+  end.
+Fixpoint nav_all (steps : list rstep) (lv : list pstep * value) : list (list pstep * value) :=
+  match steps with [] => [lv] | x :: r => flat_map (nav_all r) (nav1r x lv) end.
 
 Lemma flat_map_flat_map {A B C} (f : B -> list C) (g : A -> list B) l :
   flat_map f (flat_map g l) = flat_map (fun x => flat_map f (g x)) l.
@@ -45,14 +52,37 @@ Proof. induction l as [|a l IH]; cbn [flat_map map app]; [reflexivity|]. rewrite
 
 (* without wildcards a chain reaches at most one value: the one nav_chain finds *)
 Lemma nav_all_single : forall steps (p : list pstep) v, existsb (fun s => match s with SWild _ => true | _ => false end) steps = false ->
-  nav_all steps (p, v) = match nav_chain v steps with Some x => [(p ++ map step_loc steps, x)] | None => [] end.
+  nav_all (map RPlain steps) (p, v) = match nav_chain v steps with Some x => [(p ++ map step_loc steps, x)] | None => [] end.
 Proof.
-  induction steps as [|s r IH]; intros p v Hw; cbn [nav_all nav_chain map].
+  induction steps as [|s r IH]; intros p v Hw; cbn [nav_all nav_chain map nav1r].
   - rewrite app_nil_r. reflexivity.
   - cbn [existsb] in Hw. apply orb_false_iff in Hw. destruct Hw as [H1 H2].
     assert (E : nav1 s (p, v) = match nav v s with Some x => [(p ++ [step_loc s], x)] | None => [] end) by (destruct s; try reflexivity; discriminate H1).
     rewrite E. destruct (nav v s) as [x|]; [|reflexivity]. cbn [flat_map]. rewrite app_nil_r, IH by exact H2. rewrite <- app_assoc. reflexivity.
 Qed.
+
+Lemma containers_some : forall v p, Forall (fun cu => exists l, fst cu = Some l) (containers (Some p) v).
+Proof.
+  induction v as [|b|x|s x|s|xs IH|m IH|t i s] using value_ind_strong; intros p; [constructor|constructor|constructor|constructor|constructor| | |constructor].
+  - rewrite containers_arr. constructor; [exists p; reflexivity|].
+    apply Forall_forall. intros cu Hin. apply in_flat_map in Hin. destruct Hin as [[i x] [Hix Hcu]]. cbn [fst snd ext_loc] in Hcu.
+    assert (Hx : In x xs).
+    { clear -Hix. revert Hix. generalize 0%Z. induction xs as [|y ys IHy]; intros z Hix; [contradiction|].
+      cbn [index_list] in Hix. destruct Hix as [E|Hix]; [inversion E; left; reflexivity|right; exact (IHy _ Hix)]. }
+    rewrite Forall_forall in IH. pose proof (IH x Hx (p ++ [PIdx i])) as H. rewrite Forall_forall in H. exact (H cu Hcu).
+  - rewrite containers_obj. constructor; [exists p; reflexivity|].
+    apply Forall_forall. intros cu Hin. apply in_flat_map in Hin. destruct Hin as [k [_ Hcu]].
+    destruct (lookup m k) as [x|] eqn:El; [|contradiction]. cbn [ext_loc] in Hcu.
+    apply lookup_some_in in El. rewrite Forall_forall in IH. pose proof (IH (k, x) El (p ++ [PKey k])) as H. cbn [snd] in H.
+    rewrite Forall_forall in H. exact (H cu Hcu).
+Qed.
+Lemma flat_map_ext_in' {A B} (f g : A -> list B) l : (forall a, In a l -> f a = g a) -> flat_map f l = flat_map g l.
+Proof.
+  induction l as [|a l IH]; intros H; cbn [flat_map]; [reflexivity|].
+  rewrite (H a (or_introl eq_refl)), IH; [reflexivity|]. intros b Hb. apply H. right. exact Hb.
+Qed.
+Lemma map_flat_map' {A B C} (f : B -> C) (g : A -> list B) l : map f (flat_map g l) = flat_map (fun x => map f (g x)) l.
+Proof. induction l as [|a l IH]; cbn [flat_map map]; [reflexivity|]. rewrite map_app, IH. reflexivity. Qed.
 
 Lemma digits_val_nonneg ds : forall acc z, (0 <= acc)%Z -> digits_val ds acc = Some z -> (0 <= z)%Z.
 Proof.
@@ -90,19 +120,13 @@ Section ChainAddr.
   Notation eval_run := (eval_run ffun afun regex_match).
   Notation sp := (sp ffun afun regex_match).
 
-  (* the basic of the last node of a chain whose first node carries b *)
-  Fixpoint last_basic (b : basic) (r : list kstep) : basic :=
-    match r with [] => b | x :: r' => last_basic (fin_basic cfg (step_vg x) x r') r' end.
-  Lemma last_basic_acc b r : accessor b = cfg_accessor cfg -> accessor (last_basic b r) = cfg_accessor cfg.
-  Proof. revert b. induction r as [|x r IH]; intros b Hb; [exact Hb|apply IH; reflexivity]. Qed.
-
   Definition fwd (b : basic) (next : onode) (root : value) (lv : list pstep * value) : list sres :=
     match next with
     | OSome nx => sp nx root (Some (fst lv), snd lv)
     | ONone => [(b, true, (Some (fst lv), snd lv))]
     end.
 
-  (* the specification of one step of the chain: navigate, then go on from every value reached *)
+  (* the specification of one step: navigate, then go on from every value reached *)
   Lemma sp_step s b next root p v : step_ok s = true ->
     sp (Node (step_kind s) b next) root (Some p, v) = flat_map (fwd b next root) (nav1 s (p, v)).
   Proof.
@@ -125,71 +149,113 @@ Section ChainAddr.
         cbn [flat_map fwd fst snd ext_loc]. rewrite app_nil_r. destruct next; reflexivity.
   Qed.
 
-  Lemma sp_chain : forall r s b root p v, forallb step_ok (s :: r) = true ->
-    sp (Node (step_kind s) b (chain1 cfg r)) root (Some p, v) =
-    map (fun lv => (last_basic b r, true, (Some (fst lv), snd lv))) (nav_all (s :: r) (p, v)).
+  (* the nodes of one step with arbitrary basics, followed by next *)
+  Definition seg (x : rstep) (b1 b2 : basic) (next : onode) : node :=
+    match x with
+    | RPlain s => Node (step_kind s) b2 next
+    | RRec s => Node (KRec (fst (rec_flags s)) (snd (rec_flags s))) b1 (OSome (Node (step_kind s) b2 next))
+    end.
+
+  Lemma sp_seg x b1 b2 next root p v : rstep_ok x = true ->
+    sp (seg x b1 b2 next) root (Some p, v) = flat_map (fwd b2 next root) (nav1r x (p, v)).
   Proof.
-    induction r as [|x r IH]; intros s b root p v Hs; cbn [forallb] in Hs; apply andb_true_iff in Hs; destruct Hs as [H1 H2].
-    - cbn [chain1]. rewrite sp_step by exact H1. cbn [nav_all last_basic fwd].
-      rewrite <- flat_map_single. rewrite flat_map_flat_map. apply flat_map_ext'. intros a. reflexivity.
-    - cbn [chain1]. rewrite sp_step by exact H1. cbn [nav_all last_basic fwd].
-      rewrite <- flat_map_single, flat_map_flat_map. apply flat_map_ext'. intros [l y]. unfold fwd. cbn [fst snd].
-      rewrite IH by exact H2. rewrite <- flat_map_single. reflexivity.
+    intros Hs. destruct x as [s|s]; cbn [seg nav1r rstep_ok] in *; [apply sp_step; exact Hs|].
+    cbn [fst snd].
+    assert (E : sp (Node (KRec (fst (rec_flags s)) (snd (rec_flags s))) b1 (OSome (Node (step_kind s) b2 next))) root (Some p, v) =
+                flat_map (fun cu => sp (Node (step_kind s) b2 next) root cu) (containers (Some p) v)).
+    { cbn [Spec.sp fst snd]. apply flat_map_ext'. intros [l x]. cbn [snd].
+      destruct s as [q k|k|ds|d]; cbn [rec_flags fst snd step_kind]; destruct x; reflexivity. }
+    rewrite E. rewrite flat_map_flat_map. apply flat_map_ext_in'. intros cu Hin.
+    pose proof (containers_some v p) as Hc. rewrite Forall_forall in Hc. destruct (Hc cu Hin) as [l Hl].
+    destruct cu as [ol x]. cbn [fst snd] in *. subst ol. unfold cu_loc. cbn [fst snd].
+    apply sp_step. exact Hs.
+  Qed.
+
+  Lemma fin_pres x r : exists b1 b2, fin (pres cfg (x :: r)) = OSome (seg x b1 b2 (fin (pres cfg r))) /\ accessor b2 = cfg_accessor cfg.
+  Proof.
+    unfold pres. cbn [flat_map]. destruct x as [s|s]; cbn [rstep_pre app fin fst snd seg].
+    - eexists (pre_basic cfg s), _. split; [reflexivity|]. reflexivity.
+    - eexists _, _. split; [reflexivity|]. destruct s as [q k|k|ds|[|]]; reflexivity.
+  Qed.
+  Lemma chain_node_seg x r : exists b1 b2, chain_node cfg (x :: r) = seg x b1 b2 (fin (pres cfg r)) /\ accessor b2 = cfg_accessor cfg.
+  Proof.
+    unfold chain_node, pres. cbn [flat_map]. destruct x as [s|s]; cbn [rstep_pre app fin fst snd seg].
+    - eexists (pre_basic cfg s), _. split; [reflexivity|]. reflexivity.
+    - eexists _, _. split; [reflexivity|]. destruct s as [q k|k|ds|[|]]; reflexivity.
+  Qed.
+
+  Lemma sp_chain : forall r x b1 b2, forallb rstep_ok (x :: r) = true -> accessor b2 = cfg_accessor cfg ->
+    exists B, accessor B = cfg_accessor cfg /\ forall root p v,
+      sp (seg x b1 b2 (fin (pres cfg r))) root (Some p, v) =
+      map (fun lv => (B, true, (Some (fst lv), snd lv))) (nav_all (x :: r) (p, v)).
+  Proof.
+    induction r as [|y r IH]; intros x b1 b2 Hs Hb; cbn [forallb] in Hs; apply andb_true_iff in Hs; destruct Hs as [H1 H2].
+    - exists b2. split; [exact Hb|]. intros root p v. change (fin (pres cfg [])) with ONone. rewrite sp_seg by exact H1.
+      cbn [nav_all]. rewrite <- flat_map_single, flat_map_flat_map. apply flat_map_ext'. intros lv. reflexivity.
+    - destruct (fin_pres y r) as (c1 & c2 & Ef & Hc). destruct (IH y c1 c2 H2 Hc) as (B & HB & Hsp).
+      exists B. split; [exact HB|]. intros root p v. rewrite Ef, sp_seg by exact H1.
+      cbn [nav_all]. rewrite map_flat_map'. apply flat_map_ext'. intros [l z]. unfold fwd. cbn [fst snd]. apply Hsp.
   Qed.
 
   Definition loc_result (lv : list pstep * value) : res :=
     if cfg_accessor cfg then RAcc true (Some (fst lv)) (snd lv) else RVal (snd lv).
 
-  Lemma spec_chain s r doc : forallb step_ok (s :: r) = true ->
-    spec_results ffun afun regex_match (chain_node cfg s r) doc = map loc_result (nav_all (s :: r) ([], doc)).
+  Lemma spec_chain x r doc : forallb rstep_ok (x :: r) = true ->
+    spec_results ffun afun regex_match (chain_node cfg (x :: r)) doc = map loc_result (nav_all (x :: r) ([], doc)).
   Proof.
-    intros Hs. unfold spec_results, chain_node. rewrite sp_chain by exact Hs. rewrite map_map. apply map_ext. intros [l x].
-    cbn [wrap fst snd]. rewrite last_basic_acc by reflexivity. unfold loc_result. cbn [fst snd]. destruct (cfg_accessor cfg); reflexivity.
+    intros Hs. destruct (chain_node_seg x r) as (b1 & b2 & En & Hb). destruct (sp_chain r x b1 b2 Hs Hb) as (B & HB & Hsp).
+    unfold spec_results. rewrite En, Hsp. rewrite map_map. apply map_ext. intros [l z].
+    cbn [wrap fst snd]. rewrite HB. unfold loc_result. cbn [fst snd]. destruct (cfg_accessor cfg); reflexivity.
   Qed.
 
-  (* a path of name, index and wildcard steps returns exactly the values its steps reach, in order, with their
-     locations in accessor mode; it fails exactly when they reach nothing *)
-  Theorem chain_retrieval s r doc st : forallb step_ok (s :: r) = true -> small doc -> ok st ->
-    exists t, parse (chain_path (s :: r)) = ParseOk t /\
-              match nav_all (s :: r) ([], doc) with
+  (* a path of name, index and wildcard steps, each possibly after `..`, returns exactly the values its steps reach,
+     in order, with their locations in accessor mode; it fails exactly when they reach nothing *)
+  Theorem chain_retrieval x r doc st : forallb rstep_ok (x :: r) = true -> small doc -> ok st ->
+    exists t, parse (chain_path (x :: r)) = ParseOk t /\
+              match nav_all (x :: r) ([], doc) with
               | [] => exists e, fst (eval_run t doc st) = OErr e
               | l => fst (eval_run t doc st) = OOk (map loc_result l)
               end.
   Proof.
-    intros Hs Hd Hok. exists (chain_node cfg s r).
-    pose proof (parse_chain_path cfg parse_float regex_ok s r Hs) as Hp. split; [exact Hp|].
-    pose proof (retrieve_end_to_end cfg parse_float regex_ok ffun afun regex_match ffun_small afun_small (chain_path (s :: r)) doc st Hd Hok) as H.
-    rewrite Hp in H. rewrite (spec_chain s r doc Hs) in H.
-    destruct (nav_all (s :: r) ([], doc)) as [|a l] eqn:En.
-    - destruct (fst (eval_run (chain_node cfg s r) doc st)) as [rs|e|pn].
+    intros Hs Hd Hok. exists (chain_node cfg (x :: r)).
+    pose proof (parse_chain_path cfg parse_float regex_ok x r Hs) as Hp. split; [exact Hp|].
+    pose proof (retrieve_end_to_end cfg parse_float regex_ok ffun afun regex_match ffun_small afun_small (chain_path (x :: r)) doc st Hd Hok) as H.
+    rewrite Hp in H. rewrite (spec_chain x r doc Hs) in H.
+    destruct (nav_all (x :: r) ([], doc)) as [|a l] eqn:En.
+    - destruct (fst (eval_run (chain_node cfg (x :: r)) doc st)) as [rs|e|pn].
       + destruct H as [H1 [H2 _]]. contradiction (H2 H1).
       + exists e. reflexivity.
       + contradiction.
-    - destruct (fst (eval_run (chain_node cfg s r) doc st)) as [rs|e|pn].
+    - destruct (fst (eval_run (chain_node cfg (x :: r)) doc st)) as [rs|e|pn].
       + destruct H as [H _]. rewrite H. reflexivity.
       + destruct H as [H _]. discriminate.
       + contradiction.
   Qed.
 
-  (* without wildcards: every node of the document is addressable by the path that spells its location *)
+  (* without wildcards and `..`: every node of the document is addressable by the path that spells its location *)
   Definition chain_result (steps : list kstep) (v : value) : res :=
     if cfg_accessor cfg then RAcc true (Some (map step_loc steps)) v else RVal v.
   Definition no_wild (steps : list kstep) : bool := negb (existsb (fun s => match s with SWild _ => true | _ => false end) steps).
+  Lemma plain_ok steps : forallb step_ok steps = true -> forallb rstep_ok (map RPlain steps) = true.
+  Proof. induction steps as [|s r IH]; [reflexivity|]. cbn [forallb map rstep_ok]. intros H. apply andb_true_iff in H. destruct H as [H1 H2]. rewrite H1, IH by exact H2. reflexivity. Qed.
 
   Theorem chain_addressable s r doc v st : forallb step_ok (s :: r) = true -> no_wild (s :: r) = true -> small doc -> ok st ->
     nav_chain doc (s :: r) = Some v ->
-    exists t, parse (chain_path (s :: r)) = ParseOk t /\ fst (eval_run t doc st) = OOk [chain_result (s :: r) v].
+    exists t, parse (chain_path (map RPlain (s :: r))) = ParseOk t /\ fst (eval_run t doc st) = OOk [chain_result (s :: r) v].
   Proof.
-    intros Hs Hw Hd Hok Hl. destruct (chain_retrieval s r doc st Hs Hd Hok) as (t & Hp & H). exists t. split; [exact Hp|].
-    unfold no_wild in Hw. apply negb_true_iff in Hw. pose proof (nav_all_single (s :: r) [] doc Hw) as E. rewrite E, Hl in H. exact H.
+    intros Hs Hw Hd Hok Hl. pose proof (plain_ok (s :: r) Hs) as Hs'. cbn [map] in Hs'.
+    destruct (chain_retrieval (RPlain s) (map RPlain r) doc st Hs' Hd Hok) as (t & Hp & H). exists t. split; [exact Hp|].
+    unfold no_wild in Hw. apply negb_true_iff in Hw. pose proof (nav_all_single (s :: r) [] doc Hw) as E. cbn [map] in E.
+    rewrite E, Hl in H. exact H.
   Qed.
   Theorem chain_absent s r doc st : forallb step_ok (s :: r) = true -> no_wild (s :: r) = true -> small doc -> ok st ->
     nav_chain doc (s :: r) = None ->
-    exists t e, parse (chain_path (s :: r)) = ParseOk t /\ fst (eval_run t doc st) = OErr e.
+    exists t e, parse (chain_path (map RPlain (s :: r))) = ParseOk t /\ fst (eval_run t doc st) = OErr e.
   Proof.
-    intros Hs Hw Hd Hok Hl. destruct (chain_retrieval s r doc st Hs Hd Hok) as (t & Hp & H). exists t.
-    unfold no_wild in Hw. apply negb_true_iff in Hw. rewrite (nav_all_single (s :: r) [] doc Hw), Hl in H.
-    destruct H as [e He]. exists e. split; assumption.
+    intros Hs Hw Hd Hok Hl. pose proof (plain_ok (s :: r) Hs) as Hs'. cbn [map] in Hs'.
+    destruct (chain_retrieval (RPlain s) (map RPlain r) doc st Hs' Hd Hok) as (t & Hp & H). exists t.
+    unfold no_wild in Hw. apply negb_true_iff in Hw. pose proof (nav_all_single (s :: r) [] doc Hw) as E. cbn [map] in E.
+    rewrite E, Hl in H. destruct H as [e He]. exists e. split; assumption.
   Qed.
 End ChainAddr.
 
